@@ -303,16 +303,19 @@ def conc_runs(h, tier, rng, ncalls):
                     add("c_leg%d_v%d_k%d" % (r, v, k), v, k, sched, vt="legacy", shape="random-legacy")
     if tier == "thorough":
         # exhaustive: both instances past create/alter/begin, every interleaving of the transaction parts
+        # (5 calls each = 252 schedules, 6 = 924; 7 = 3432 only for the small corpus histories)
         for k in sorted({max(n - 1, 0), max(n - 2, 0)}):
             nc = ncalls.get("0:%d" % k)
-            if not nc or nc - 3 > 7:
+            cap = 7 if (n <= 2 and not h["name"].startswith("g")) else 6
+            if not nc or nc - 3 > cap:
                 continue
             for idx, il in enumerate(interleavings(nc - 3, nc - 3)):
                 add("c_ex_k%d_%d" % (k, idx), 0, k, [0, 0, 0, 1, 1, 1] + il, shape="exhaustive-txn")
         # exhaustive: the parts outside the transaction (create, alter, begin, first read) on a fresh database
         for idx, il in enumerate(interleavings(4, 4)):
             add("c_exp_%d" % idx, 0, 0, il, shape="exhaustive-prelude")
-            add("c_expl_%d" % idx, 0, min(1, n), il, vt="legacy" if n else None, shape="exhaustive-prelude-legacy")
+            if n:
+                add("c_expl_%d" % idx, 0, 1, il, vt="legacy", shape="exhaustive-prelude-legacy")
     return runs
 
 
@@ -426,6 +429,22 @@ def applied_of(out, run):
     return None
 
 
+def crash_case(binp, hdir, wd, k, j, tag):
+    """kill the process before its j-th connection call on a database prepared at the k-th migration"""
+    db = os.path.join(wd, "crash_k%d_j%d.db" % (k, j))
+    init = {"k": k, "vt": "absent" if k == 0 else "current"}
+    base = {"work": wd, "project": hdir, "no_refcats": True}
+    o0, _, e0 = run_bin(binp, dict(base, runs=[{"name": "prep", "variant": 0, "init": init, "db": db, "instances": [], "keep_db": True}]), tag + ".c0")
+    oa, rca, _ = run_bin(binp, dict(base, runs=[{"name": "die", "variant": 0, "db": db, "reuse": True, "keep_db": True,
+                                                 "instances": [{"abort_at": j}], "mode": "sequential"}]), tag + ".c1")
+    o2, _, e2 = run_bin(binp, dict(base, runs=[{"name": "look", "variant": 0, "db": db, "reuse": True, "keep_db": True, "instances": []},
+                                               {"name": "rerun", "variant": 0, "db": db, "reuse": True, "instances": [{}], "mode": "sequential"}]), tag + ".c2")
+    if o0 is None or o2 is None:
+        return {"error": (e0 or "") + (e2 or "")}
+    return {"k": k, "j": j, "died": oa is None, "prep": o0["runs"][0], "look": o2["runs"][0], "rerun": o2["runs"][1],
+            "survivor": None if oa is None else oa["runs"][0]}
+
+
 def run_history(hdir, tier, seed, work, built):
     """-> dict(name, cases [..], build info) ; one Coq shard per history"""
     h = read_history(hdir)
@@ -465,20 +484,11 @@ def run_history(hdir, tier, seed, work, built):
     # process kills: prepare / run-and-die / look / re-run, each in its own process
     crashes = []
     for (k, j) in crash_points(h, tier, rng, ncalls):
-        db = os.path.join(wd, "crash_k%d_j%d.db" % (k, j))
-        init = {"k": k, "vt": "absent" if k == 0 else "current"}
-        o0, _, e0 = run_bin(binp, {"work": wd, "project": hdir, "no_refcats": True, "runs": [{"name": "prep", "variant": 0, "init": init, "db": db, "instances": [], "keep_db": True}]}, h["name"] + ".c0")
-        oa, rca, _ = run_bin(binp, {"work": wd, "project": hdir, "no_refcats": True, "runs": [{"name": "die", "variant": 0, "db": db, "reuse": True, "keep_db": True,
-                                                                               "instances": [{"abort_at": j}], "mode": "sequential"}]}, h["name"] + ".c1")
-        o2, _, e2 = run_bin(binp, {"work": wd, "project": hdir, "no_refcats": True, "runs": [
-            {"name": "look", "variant": 0, "db": db, "reuse": True, "keep_db": True, "instances": []},
-            {"name": "rerun", "variant": 0, "db": db, "reuse": True, "instances": [{}], "mode": "sequential"}]}, h["name"] + ".c2")
-        if o0 is None or o2 is None:
-            res["error"] = {"stage": "crash-harness", "log": (e0 or "") + (e2 or "")}
+        c = crash_case(binp, hdir, wd, k, j, h["name"])
+        if "error" in c:
+            res["error"] = {"stage": "crash-harness", "log": c["error"]}
             return res
-        died = oa is None
-        crashes.append({"k": k, "j": j, "died": died, "prep": o0["runs"][0], "look": o2["runs"][0], "rerun": o2["runs"][1],
-                        "survivor": None if died else oa["runs"][0]})
+        crashes.append(c)
     res["out"] = {"prefix": out1["prefix"], "migs": out1["migs"], "refcats": out1["refcats"]}
     res["runs"] = runs
     res["crashes"] = crashes
@@ -540,17 +550,21 @@ def run_mig_locked(tier, seed, key, d, done, t0):
     for b in bins[40:]:
         shutil.rmtree(b, ignore_errors=True)
     shutil.rmtree(work, ignore_errors=True)
-    # one Coq shard per history
-    descr, shard_of = [], {}
-    for si, hr in enumerate(hist):
+    # Coq shards: cases of one history share its `ms` / `refc`; at most per_shard cases per file
+    per_shard = 60 if tier == "quick" else 150
+    descr, shard_of, si = [], {}, 0
+    for hr in hist:
         if hr.get("error"):
             continue
         cs = history_cases(hr)
-        write_shard(os.path.join(d, "cases_mig_%03d.v" % si), hr["out"], [c for c, _ in cs])
-        for li, (_, ds) in enumerate(cs):
-            ds.update({"shard": si, "local": li, "gidx": len(descr)})
-            descr.append(ds)
-        shard_of[si] = hr["name"]
+        for a in range(0, len(cs), per_shard):
+            part = cs[a:a + per_shard]
+            write_shard(os.path.join(d, "cases_mig_%03d.v" % si), hr["out"], [c for c, _ in part])
+            for li, (_, ds) in enumerate(part):
+                ds.update({"shard": si, "local": li, "gidx": len(descr)})
+                descr.append(ds)
+            shard_of[si] = hr["name"]
+            si += 1
     mism, errors, flags = {}, [], {}
     for f, rc, o, dt in vflib.run_shards("mig", d, "cases_mig_*.v"):
         si = int(re.search(r"cases_mig_(\d+)\.v", f).group(1))
@@ -949,8 +963,18 @@ def mig_replay(prop, path):
     wd = os.path.join(MIG, "replay", "work")
     shutil.rmtree(wd, ignore_errors=True)
     if tags.get("kind") == "crash" or "prep" in src:
-        print("crash replays: re-run `./vf check %s` (the kill needs three processes); input: k=%s j=%s" % (prop, src.get("k"), src.get("j")))
-        return 1
+        out0, rc0, err0 = run_bin(binp, {"work": wd, "project": hd, "runs": []}, "replay0")
+        c = crash_case(binp, hd, wd, src.get("k", 0), src.get("j", 0), "replay")
+        if out0 is None or "error" in c:
+            print("harness failed: %s %s" % (err0, c.get("error")))
+            return 1
+        o = oracle_crash({"out": {"migs": out0["migs"], "refcats": out0["refcats"]}, "versions": h["versions"]}, c)
+        print(json.dumps({"killed_before_call": c["j"], "process_died": c["died"], "after_kill": c["look"]["after"], "oracle": o}, indent=1)[:4000])
+        if not o["ok"]:
+            print("VIOLATION property=%s replay=%s" % (prop, path))
+            return 1
+        print("replay: the oracle holds on this input now")
+        return 0
     faults = rp.get("faults") or [i.get("faults") for i in (rp.get("implementation") or {}).get("instances", [])] or [[]]
     spec = {"name": "replay", "variant": src.get("variant", 0), "backend": src.get("backend", "sqlite"), "init": {k: v for k, v in (src.get("init") or {}).items() if k in ("k", "vt", "rows")},
             "instances": [{"faults": f or []} for f in faults], "schedule": src.get("schedule") or [], "tags": tags}
